@@ -357,7 +357,8 @@ class Evaluator:
             while self.ev(s.test):
                 n += 1
                 if n > 10000:
-                    raise Unknown("loop bound")
+                    # far beyond anything the enumerated domains need: reported as non-termination of the analysed loop
+                    raise Raised("NonTermination (more than 10000 iterations)", s)
                 try:
                     self.exec_block(s.body)
                 except _Break:
